@@ -180,7 +180,13 @@ ResEq(a, b) ==
                     OHas(b, a.v[i][1]) /\ ResEq(a.v[i][2], OGet(b, a.v[i][1]))
          [] OTHER -> JSame(a, b)
 
+(* two declared JSON names with one Python name: which declaration the attribute stands for  *)
+(* is the subject of C12 (listed there); C05 speaks about unambiguous declarations           *)
+NamesCollide(S) == ~IsBoolSchema(S) /\ Has(S, "properties")
+                   /\ \E i, j \in 1..Len(S.properties) :
+                         i # j /\ PyName(S.properties[i][1]) = PyName(S.properties[j][1])
 DefaultsApply(S) == ~IsBoolSchema(S) /\ DOMAIN S \cap CompKwsR = {} /\ Has(S, "properties")
+                    /\ ~NamesCollide(S)
 
 R_C05_obj(S, v, kind, out, dobs) ==
   (kind = "ok" /\ v.k = "obj" /\ DefaultsApply(S)) =>
